@@ -614,13 +614,12 @@ def rule_history(ctx, rule='R13.h'):
             construct = '%s.%s' % (MA, name)
             tag = 'receiver %s' % rcls.name
 
-            def run(preset, name=name, rcls=rcls, mutate=False):
+            def run(preset, name=name, rcls=rcls, mutate=False, same_right=None):
                 ip = _ip(ctx.prog)
                 ip.preset = list(preset)
                 a = W.matrixarray(ip, 'A', 'Real', origin='self')
                 a.cls = rcls
-                b1 = W.matrixarray(ip, 'B1', 'Real', origin='other1')
-                b2 = W.matrixarray(ip, 'B', 'Real', origin='other')
+                b1 = W.matrixarray(ip, 'B1', same_right or 'Real', origin='other1')
                 nargs = 0 if name in ('invert', 'get_copy') else 1
                 r1 = _call(ip, a, name, [b1][:nargs])
                 t1 = W.attr_term(ip, r1.attrs.get('data')) if isinstance(r1, Obj) else None
@@ -629,10 +628,22 @@ def rule_history(ctx, rule='R13.h'):
                     # object, new values
                     ip.declare('A2', 'tensor', symmetric=True)
                     a.attrs['data'].t = N.sym('A2')
+                if same_right:
+                    # the right operand of both calls is ONE object whose contents the caller changed in place in between
+                    # (R *= 2 on a density-like NonSpatial array): same array object, new values
+                    ip.declare('B', 'tensor', symmetric=True)
+                    b1.attrs['data'].t = B
+                    b2 = b1
+                else:
+                    b2 = W.matrixarray(ip, 'B', 'Real', origin='other')
                 r2 = _call(ip, a, name, [b2][:nargs])
-                return ip, {'a': a, 'b1': b1, 'b2': b2, 'r1': r1, 'r2': r2, 't1': t1, 'left': N.sym('A2') if mutate else A}
+                return ip, {'a': a, 'b1': b1, 'b2': b2, 'r1': r1, 'r2': r2, 't1': t1, 'left': N.sym('A2') if mutate else A,
+                            'same_right': same_right}
             try:
                 worlds = explore(run) + explore(lambda preset: run(preset, mutate=True))
+                if name not in ('invert', 'get_copy'):
+                    for sp in ('Real', 'NonSpatial'):
+                        worlds += explore(lambda preset, sp=sp: run(preset, same_right=sp))
             except (Unsupported, Raised) as e:
                 ctx.undecided(rule, construct, '%s: %s' % (tag, e), m.loc())
                 continue
@@ -656,7 +667,8 @@ def rule_history(ctx, rule='R13.h'):
                 t2 = W.attr_term(ip, d2)
                 if t2 is None or P.is_pw(t2) or not t2.equals(want2):
                     bad.append('second call%s returns %s, expected %s' % (
-                        ' (after the left operand was modified in place)' if w['left'] is not A else '',
+                        ' (after the left operand was modified in place)' if w['left'] is not A else
+                        (' (same %s right operand, modified in place between the calls)' % w['same_right'] if w['same_right'] else ''),
                         P.show(t2)[:120] if t2 is not None else d2, N.show(want2)))
                 held = _heap_of(a) | _heap_of(w['b1']) | _heap_of(w['b2'])
                 for which, root in (('first', root1), ('second', root2)):
